@@ -4,6 +4,7 @@
 -/
 import EG.Lemmas.AdaptersExact
 namespace EG
+open Tgt
 
 /-- The composed transformation of a stack over a root with box `B`: accumulated clip region (in
 root coordinates), total shift, composed colour map. -/
@@ -102,7 +103,7 @@ theorem stack_run_default (B : Rect) (s : Stack) (calls : List Call) (h : ∀ c 
   exact stack_run_native B s calls h q
 
 /-- A point is touched by a write list iff some write names it. -/
-theorem lastWrite_eq_none_iff (ws : Writes) (p : Pt) : lastWrite ws p = none ↔ ∀ w ∈ ws, w.1 ≠ p := by
+theorem Tgt.lastWrite_eq_none_iff (ws : Writes) (p : Pt) : lastWrite ws p = none ↔ ∀ w ∈ ws, w.1 ≠ p := by
   induction ws with
   | nil => simp [lastWrite_nil]
   | cons w ws ih =>
@@ -125,6 +126,7 @@ theorem stack_inside (B : Rect) (s : Stack) (c : Call) (h : stackOk B s c) :
 end EG
 
 namespace EG
+open Tgt
 
 /-- The meaning of a call depends on the target's box only through `clear`, and there only
 through membership of the point. -/
